@@ -11,14 +11,14 @@
 EXTENDS MCPaths
 
 Start == [BaseState EXCEPT !.bal = [@ EXCEPT !["a1"] = 6], !.supply = 10, !.limits = {[denom |-> MINT, amt |-> 3]},
-                           !.attesters = {A("k1"), A("k2")}, !.threshold = 1]
+                           !.attesters = {A("k1"), [key |-> "k2", sp |-> "0x"]}, !.threshold = 1]   \* (one attester enabled under the 0x spelling)
 
 Bat2(w, r) == [type |-> "Batch", msgs |-> <<w, r>>]
 
 \* <<write, a message that reads the same entry and then fails>>
 Writes ==
   { <<[type |-> "EnableAttester", from |-> "a1", att |-> A("k3")],  [type |-> "UpdateSignatureThreshold", from |-> "a1", amt |-> 9]>>,
-    <<[type |-> "DisableAttester", from |-> "a1", att |-> A("k2")], [type |-> "UpdateSignatureThreshold", from |-> "a1", amt |-> 9]>>,
+    <<[type |-> "DisableAttester", from |-> "a1", att |-> [key |-> "k2", sp |-> "0x"]], [type |-> "UpdateSignatureThreshold", from |-> "a1", amt |-> 9]>>,
     <<[type |-> "UpdateSignatureThreshold", from |-> "a1", amt |-> 2], [type |-> "UpdateSignatureThreshold", from |-> "a1", amt |-> 2]>>,
     <<[type |-> "LinkTokenPair", from |-> "a1", d |-> "d2", tok |-> T1, denom |-> MINT],
       [type |-> "LinkTokenPair", from |-> "a1", d |-> "d2", tok |-> T1, denom |-> MINT]>>,
